@@ -19,13 +19,13 @@ const verifP = 512
 // verifLease is a lease that is simply held.
 type verifLease struct{ closed int }
 
-func (l *verifLease) ID() string                                      { return "verif" }
-func (l *verifLease) RenewedAt() time.Time                            { return time.Time{} }
-func (l *verifLease) TTL() time.Duration                              { return time.Hour }
-func (l *verifLease) Renew(ctx context.Context) error                 { return nil }
+func (l *verifLease) ID() string                                       { return "verif" }
+func (l *verifLease) RenewedAt() time.Time                             { return time.Time{} }
+func (l *verifLease) TTL() time.Duration                               { return time.Hour }
+func (l *verifLease) Renew(ctx context.Context) error                  { return nil }
 func (l *verifLease) Handoff(ctx context.Context, nodeID uint64) error { return nil }
-func (l *verifLease) HandoffCh() <-chan uint64                        { return nil }
-func (l *verifLease) Close() error                                    { l.closed++; return nil }
+func (l *verifLease) HandoffCh() <-chan uint64                         { return nil }
+func (l *verifLease) Close() error                                     { l.closed++; return nil }
 
 // verifInvalidator records page-cache invalidations.
 type verifInvalidator struct {
@@ -81,6 +81,7 @@ func verifNewStore(primary bool) *verifWorld {
 	if primary {
 		w.lease = &verifLease{}
 		s.lease = w.lease
+		s.primaryCh = make(chan struct{}) // what setLease does on becoming primary
 	}
 	w.store = s
 	w.sub = s.SubscribeChangeSet(7)
@@ -271,7 +272,7 @@ func VerifPrimaryWorld(n0 int, wal bool) (*Store, *DB, func() []int) {
 
 // VerifTreeDigest / VerifSameTree expose the directory comparison helpers.
 func VerifTreeDigest(dir string) map[string][]byte { return verifTreeDigest(dir) }
-func VerifSameTree(a, b map[string][]byte) bool   { return verifSameTree(a, b) }
+func VerifSameTree(a, b map[string][]byte) bool    { return verifSameTree(a, b) }
 
 // VerifPrimaryChain: a primary with database "db" (1 page, position 41) on
 // which k rollback-journal transactions were committed through the real code:
@@ -382,3 +383,13 @@ func VerifEncodeTx(db *DB, nodeID uint64, txid ltx.TXID, pre ltx.Checksum) []byt
 func VerifSetPos(db *DB, txid uint64, chk uint64) {
 	db.pos.Store(ltx.Pos{TXID: ltx.TXID(txid), PostApplyChecksum: ltx.Checksum(chk) | ltx.ChecksumFlag})
 }
+
+// verifDemote is what the lease monitor does when the lease is lost.
+func verifDemote(s *Store) {
+	s.mu.Lock()
+	s.setLease(nil)
+	s.mu.Unlock()
+}
+
+// VerifDemote exposes verifDemote.
+func VerifDemote(s *Store) { verifDemote(s) }
